@@ -112,7 +112,10 @@ CLAIMED = {
             'fill_value / missing_value / _FillValue with fills -999, -5, 1e20, 0 and a fully masked variable; every '
             'attribute value type; dimension/variable order with a mid-position and a second unlimited dimension) x '
             '4 netCDF flavours x complevel 0/1 x 3 writer entry points x with/without a compressed save earlier in the '
-            'process are saved and reopened; dimensions (names, order, lengths, unlimited), attributes (names, values, '
+            'process, plus a generated grid: every representable dtype x {unmasked, masked with pattern one/all/none/'
+            'first/last} x fill source x 2-4 fill values per dtype x record length 2/1/0, one variable per dimension '
+            'shape incl. scalars (196 files quick / 1.2 k thorough, x flavours x complevel x writers in thorough), '
+            'are saved and reopened; dimensions (names, order, lengths, unlimited), attributes (names, values, '
             'type kind), variables (names, order, dtypes, dimension tuples, masks, bit-identical unmasked data) are compared.',
             'libnetcdf/netCDF4 trusted for on-disk truth; 1-element array attributes == scalars; _FillValue reserved',
             'DESIGN.md section 4 C07'),
